@@ -187,7 +187,9 @@ func (vm *vm) run() error {
 				b, a := pop().(int), pop().(string)
 				push(strings.Repeat(a, b))
 
-			case instr == opEQ:
+			case instr == opEQ && !(isBlock(peek(1)) && isBlock(peek(0))):
+				// two Blocks (nested blocks read back as fields) are not
+				// comparable, == on them would panic
 				b, a := pop(), pop()
 				push(a == b)
 
